@@ -625,14 +625,18 @@ impl<'tcx> Cx<'tcx> {
             DefKind::Fn => "Fn",
             DefKind::AssocFn => "AssocFn",
             DefKind::Closure => "Closure",
+            // bodies of (associated) constants with a default value, e.g. SizedTypeProperties::NEEDS_DROP
+            DefKind::Const { .. } | DefKind::AssocConst { .. } => "Const",
             _ => return None,
         };
         if !tcx.is_mir_available(did) {
             return None;
         }
-        let body: &Body<'tcx> = tcx.optimized_mir(did);
+        let is_const = kind_s == "Const";
+        let body: &Body<'tcx> = if is_const { tcx.mir_for_ctfe(did) } else { tcx.optimized_mir(did) };
         let is_unsafe = match kind {
             DefKind::Closure => false,
+            _ if is_const => false,
             _ => tcx.fn_sig(did).skip_binder().safety().is_unsafe(),
         };
         let mut names: HashMap<usize, String> = HashMap::new();
